@@ -333,3 +333,31 @@ func selRecvTerm(e *Effect) *Term {
 	}
 	return &Term{K: "selrecv", S: fmt.Sprint(ord), A: []*Term{e.Res}}
 }
+
+// phiRoles names the phis of a loop header by role.  Each role has a
+// predicate; a role is assigned only when exactly one phi satisfies it, so a
+// renamed local keeps its role and an ambiguous shape keeps source names
+// (which then fail to match the reference: undecided rather than wrong).
+func phiRoles(header *ssa.BasicBlock, roles map[string]func(*ssa.Phi) bool) map[*ssa.Phi]string {
+	out := map[*ssa.Phi]string{}
+	for role, pred := range roles {
+		var hit []*ssa.Phi
+		for _, in := range header.Instrs {
+			phi, ok := in.(*ssa.Phi)
+			if !ok {
+				break
+			}
+			if pred(phi) {
+				hit = append(hit, phi)
+			}
+		}
+		if len(hit) == 1 {
+			out[hit[0]] = role
+		}
+	}
+	return out
+}
+
+func phiTypeIs(s string) func(*ssa.Phi) bool {
+	return func(p *ssa.Phi) bool { return typeStr(p.Type()) == s }
+}
